@@ -46,7 +46,58 @@ pub fn templates() -> Vec<Template> {
     ]
 }
 
+/// "Discarded or retried attempts contribute nothing": a guard precompile fails *fatally* on the
+/// stale value of S.2 (zero until tx0's write is visible), so a speculative attempt of the guard is
+/// discarded with an EVM error; the following transactions read the same slot / account through
+/// the facade, through an opcode, or write it. Whatever the failed attempt loaded must not leak
+/// into the next attempt that runs on the same worker.
+pub fn discarded_attempt_cases(spec: SpecId) -> Vec<Case> {
+    let s = contract(S);
+    let mut db = world();
+    db.deploy(contract(8), kit::probe_slot());
+    let writer = ("store(S,2,5)(e0)".to_string(), call(eoa(0), 0, s, &[word(2), word(5)]));
+    let guard = ("pc.fatal-if-zero(S,2)(e1)".to_string(), call(eoa(1), 0, pc_addr(PC_FATAL_IF_ZERO), &[word_addr(s), word(2)]));
+    let followers: Vec<(String, revm_context::TxEnv)> = vec![
+        ("pc.read(S,2)(e2)".to_string(), call(eoa(2), 0, pc_addr(PC_READ), &[word_addr(s), word(2)])),
+        ("probeslot(S,2)(e2)".to_string(), call(eoa(2), 0, contract(8), &[word_addr(s), word(2)])),
+        ("pc.rwr(S,2,+4)(e2)".to_string(), call(eoa(2), 0, pc_addr(PC_READ_WRITE_READ), &[word_addr(s), word(2), word(4)])),
+        ("pc.setbal(S,1234)(e2)".to_string(), call(eoa(2), 0, pc_addr(PC_SET_BALANCE), &[word_addr(s), word(1234)])),
+    ];
+    let mut v = Vec::new();
+    for f in followers {
+        let label = f.0.clone();
+        let mut case = Case::new(format!("c11-discarded:[{label}]"), spec, db.clone(), vec![writer.clone(), guard.clone(), f.clone()]);
+        case.precompiles = Some(all());
+        v.push(case);
+        // the follower between the writer and the guard: the guard's retry runs after it
+        let mut case = Case::new(format!("c11-discarded:[{label};guard]"), spec, db.clone(), vec![writer.clone(), f, guard.clone()]);
+        case.precompiles = Some(all());
+        v.push(case);
+    }
+    v
+}
+
 pub fn jobs(tier: Tier) -> Vec<Job> {
+    let mut v = jobs_sweep(tier);
+    for case in discarded_attempt_cases(SpecId::CANCUN) {
+        match tier {
+            Tier::Quick => {
+                v.push(pipeline_job("c11-discarded", &case, &RunCfg::parallel(2), COARSE, 2, true));
+                v.push(pipeline_job("c11-discarded", &case, &RunCfg::parallel(2), FOCUS_ATTEMPT, 3, true));
+            }
+            Tier::Thorough => {
+                v.push(pipeline_job("c11-discarded", &case, &RunCfg::parallel(2), COARSE, 3, true));
+                v.push(pipeline_job("c11-discarded", &case, &RunCfg::parallel(3), COARSE, 2, true));
+                v.push(pipeline_job("c11-discarded", &case, &RunCfg::parallel(2), FOCUS_ATTEMPT, 5, true));
+                v.push(pipeline_job("c11-discarded", &case, &RunCfg::parallel(2), FINE, 1, true));
+            }
+        }
+        v.push(pipeline_job("c11-discarded", &case, &RunCfg::sequential(), COARSE, 0, false));
+    }
+    v
+}
+
+fn jobs_sweep(tier: Tier) -> Vec<Job> {
     let db = world();
     let templates = templates();
     let pcs = all();
